@@ -657,6 +657,14 @@ func vc05RunHistories(tt *testing.T, st *vstat.Stats, env *vc05Env) {
 			hist = append(hist, fmt.Sprintf("%s %d do=%t %s -> up=%d", a.name, a.qt, a.do, c, nUp))
 
 			qk := vdns.QKey(req.Question[0], a.do)
+			// The cache is keyed by the question that reaches it: for a question
+			// the filter rewrites, that is the rewritten one.
+			upQ := req.Question[0]
+			if len(upQ.Name) > 3 && strings.EqualFold(upQ.Name[:3], "cn-") {
+				upQ.Name = upQ.Name[3:]
+			}
+
+			cacheKey := vdns.QKey(upQ, a.do)
 			scoped := vc05Scoped(a.name)
 			classes := []string{"ecs-" + vc05ModeNames[c.Mode]}
 			if strings.HasPrefix(a.name, "cn-") {
@@ -793,13 +801,13 @@ func vc05RunHistories(tt *testing.T, st *vstat.Stats, env *vc05Env) {
 			// that was cached for some subnet.  Whatever the cache layout, a hit
 			// for a declined client needs an earlier upstream query for the same
 			// question that carried /0.
-			if declined && nUp == 0 && !zeroAsked[qk] {
+			if declined && nUp == 0 && !zeroAsked[cacheKey] {
 				t.Fatalf("history %v: declined client %s served from cache although no /0 upstream query for %s was ever made", hist, c, qk)
 			}
 
 			for _, call := range calls {
 				if call.ecs.SourceNetmask == 0 {
-					zeroAsked[qk] = true
+					zeroAsked[cacheKey] = true
 				}
 			}
 
@@ -843,7 +851,7 @@ func vc05RunHistories(tt *testing.T, st *vstat.Stats, env *vc05Env) {
 			if declined {
 				classes = append(classes, "declined")
 				nt = fmt.Sprintf("%s|%s|%t", qk, vc05ModeNames[c.Mode], hit)
-				if scoped && len(scopedCachedFor[qk]) > 0 {
+				if scoped && len(scopedCachedFor[cacheKey]) > 0 {
 					classes = append(classes, "declined-after-scoped-cached")
 				}
 			}
@@ -863,15 +871,15 @@ func vc05RunHistories(tt *testing.T, st *vstat.Stats, env *vc05Env) {
 				if hit {
 					classes = append(classes, "hit-scoped")
 					nt = fmt.Sprintf("%s|%s|%s|hit", qk, vc05ModeNames[c.Mode], effSub)
-				} else if m := scopedCachedFor[qk]; len(m) > 0 && !m[effSub] {
+				} else if m := scopedCachedFor[cacheKey]; len(m) > 0 && !m[effSub] {
 					classes = append(classes, "scoped-other-subnet")
 				}
 
-				if scopedCachedFor[qk] == nil {
-					scopedCachedFor[qk] = map[string]bool{}
+				if scopedCachedFor[cacheKey] == nil {
+					scopedCachedFor[cacheKey] = map[string]bool{}
 				}
 
-				scopedCachedFor[qk][effSub] = true
+				scopedCachedFor[cacheKey][effSub] = true
 			} else if hit {
 				classes = append(classes, "hit-unscoped")
 			}
